@@ -4,7 +4,31 @@ needs the built binary)."""
 import os
 
 import generic
+import tracedriver
 import vlib
+
+
+def fault_dirs(prop, seed, tier):
+    """set-admin / remove / add / update each with every single injected I/O error: whatever the operation
+    reports, afterwards no user has two files (judged here, on the directory the faulted run left)"""
+    out = []
+    for c in tracedriver.gen_cases(prop, seed, tier, want_faults=True, fault_ops_filter=("setadmin", "remove", "add", "update")):
+        if not c["class"].startswith("fault/"):
+            continue
+        names = c["human"]["after"]
+        users = {}
+        for n in names:
+            for ext in (".user", ".admin"):
+                if n.endswith(ext):
+                    users.setdefault(n[:-len(ext)], []).append(ext)
+        double = sorted(u for u, e in users.items() if len(e) > 1)
+        case = {"prop": prop, "kind": "fault-dir", "class": "fault-dir/" + c["class"][6:], "nontrivial": True, "coq": "",
+                "human": {"op": c["human"]["op"], "fault": c["human"]["fault"], "result": c["human"]["result"], "after": names}}
+        if double:
+            case["violation"] = ("after %s with %s injected (result: %s) the user(s) %s have BOTH a .user and an .admin file: the store fails its "
+                                 "own consistency check" % (" ".join(c["human"]["op"]), c["human"]["fault"], c["human"]["result"], double))
+        out.append(case)
+    return out
 
 
 def run(rep, tier, seed, replay):
@@ -18,11 +42,13 @@ def run(rep, tier, seed, replay):
         rule=base["rule"] + "; agent level: the built binary's list / list full / add / update / remove / set-admin / authenticate on 11 directories (valid, both extensions, "
              "no admin, unsupported admin, stray file, extension-less file, sub-directory, 40 fillers with one duplicate pair, empty) with and without --do-check=false: "
              "ran or refused, directory changed or not; six reloads by SIGHUP (same directory: new default / admin's parameter set dropped / directory became inconsistent / stray file; "
-             "new directory: empty / valid): accepted or not, against the model's check of the new directory under the new configuration",
+             "new directory: empty / valid): accepted or not, against the model's check of the new directory under the new configuration; "
+             "system-call level: set-admin / remove / add / update under every single injected I/O error - afterwards no user has two files",
         parts=[
             {k: v for k, v in base.items() if k != "rule"},
             dict(drivers=[("cmd/whawty-auth", "main")], run="C16a", shard=40, case_type="acase",
                  header="From Whawty Require Import Names Record Store StoreSpec."),
+            dict(pydrivers=[fault_dirs], run="C16", shard=400),
         ],
     )
     return generic.run(rep, tier, seed, replay, config=cfg)
